@@ -41,3 +41,4 @@ def rules(ctx):
     S.state_writer_rules(ctx)
     S.header_codec_rules(ctx)
     S.mutator_release_rules(ctx)
+    S.child_pair_rules(ctx)
